@@ -182,7 +182,7 @@ impl Prop for C04 {
             max_advance: 2 * 86400,
             ..Weights::default()
         };
-        wcase_strategy(cfg_strategy(Just(false).boxed(), false), w, 5, ops)
+        crate::gens::with_roll_episodes(wcase_strategy(cfg_strategy(Just(false).boxed(), false), w, 5, ops))
     }
 
     fn run(case: &WCase, _ctx: &Ctx) -> Outcome {
